@@ -279,30 +279,30 @@ func init() {
 		Name: "lifo-3x2", Props: []string{"C12"}, MustFinish: true, ObsNames: obs,
 		Doc:   "AtomicLIFO: 3 threads x 2 operations, each chosen from {Push(fresh), Pop}; final sequential drain; porcupine linearizability against a sequential stack + conservation",
 		Quick: eng.Bounds{PB: 2}, Thorough: eng.Bounds{PB: 4},
-		Body:  lifoBody(3, 2), Post: linPost(lifoModel, "C12.lifo-linearizable"),
+		Body: lifoBody(3, 2), Post: linPost(lifoModel, "C12.lifo-linearizable"),
 	})
 	eng.Register(&eng.Scenario{
 		Name: "lifo-2x3", Props: []string{"C12"}, MustFinish: true, ObsNames: obs,
 		Doc:   "AtomicLIFO: 2 threads x 3 operations from {Push, Pop}",
 		Quick: eng.Bounds{PB: 3}, Thorough: eng.Bounds{PB: 6},
-		Body:  lifoBody(2, 3), Post: linPost(lifoModel, "C12.lifo-linearizable"),
+		Body: lifoBody(2, 3), Post: linPost(lifoModel, "C12.lifo-linearizable"),
 	})
 	eng.Register(&eng.Scenario{
 		Name: "lifo-2x2-unbounded", Props: []string{"C12"}, MustFinish: true, ObsNames: obs,
 		Doc:   "AtomicLIFO: 2 threads x 2 operations, ALL interleavings of the atomic loads/CASes (preemption bound larger than the number of points)",
 		Quick: eng.Bounds{PB: 40}, Thorough: eng.Bounds{PB: 40},
-		Body:  lifoBody(2, 2), Post: linPost(lifoModel, "C12.lifo-linearizable"),
+		Body: lifoBody(2, 2), Post: linPost(lifoModel, "C12.lifo-linearizable"),
 	})
 	eng.Register(&eng.Scenario{
 		Name: "list-2-2-1", Props: []string{"C12"}, MustFinish: true, ObsNames: obs,
 		Doc:   "LinkedList: threads with 2,2,1 operations from {Push,PushFront,Pop,Peek,PeekTail,IsEmpty,Reset}, one initial element; porcupine against a sequential deque",
 		Quick: eng.Bounds{PB: 1}, Thorough: eng.Bounds{PB: 2},
-		Body:  listBody([]int{2, 2, 1}, 1), Post: linPost(dequeModel, "C12.list-linearizable"),
+		Body: listBody([]int{2, 2, 1}, 1), Post: linPost(dequeModel, "C12.list-linearizable"),
 	})
 	eng.Register(&eng.Scenario{
 		Name: "list-2-2", Props: []string{"C12"}, MustFinish: true, ObsNames: obs,
 		Doc:   "LinkedList: 2 threads x 2 operations, empty initial list, deeper preemption bound",
 		Quick: eng.Bounds{PB: 3}, Thorough: eng.Bounds{PB: 8},
-		Body:  listBody([]int{2, 2}, 0), Post: linPost(dequeModel, "C12.list-linearizable"),
+		Body: listBody([]int{2, 2}, 0), Post: linPost(dequeModel, "C12.list-linearizable"),
 	})
 }
